@@ -131,7 +131,8 @@ class Scan(Scenario):
     max_paths = 4000
 
     def __init__(self, kind, scan_kind, cols, nrows, parallel, fail_row=None, via_mc=False, read=("variables", "fluxes"), max_workers=None,
-                 after_y0_scan=False, dup_labels=False):
+                 after_y0_scan=False, dup_labels=False, tps_from_zero=True):
+        self.tps_from_zero = tps_from_zero  # False: the requested grid does not contain the start (the result still does)
         self.after_y0_scan = after_y0_scan  # an earlier scan of the same model was given y0=...: that is that scan's business only
         self.dup_labels = dup_labels  # the scan table repeats a row label: refused, or answered row by row
         self.max_workers = max_workers
@@ -145,7 +146,7 @@ class Scan(Scenario):
         self.read = tuple(read)
         self.key = (f"C09/{kind}/{'mc.' if via_mc else ''}{scan_kind}/{'+'.join(cols)}/r{nrows}/"
                     f"{'pool' if parallel else 'seq'}{f'/fail{fail_row}' if fail_row is not None else ''}/{'-'.join(read)}"
-                    f"{'' if max_workers is None else '/workers' + str(max_workers)}{'/after-y0-scan' if after_y0_scan else ''}{'/dup-labels' if dup_labels else ''}")
+                    f"{'' if max_workers is None else '/workers' + str(max_workers)}{'/after-y0-scan' if after_y0_scan else ''}{'/dup-labels' if dup_labels else ''}{'' if tps_from_zero else '/grid-without-start'}")
 
     def run(self, ctx):
         import mxlpy.integrators.int_scipy as isc
@@ -250,7 +251,7 @@ class Scan(Scenario):
             elif self.scan_kind == "ss":
                 res = mod.steady_state(m, **kw)
             elif self.scan_kind == "tc":
-                res = mod.time_course(m, time_points=np.array(tps), **kw)
+                res = mod.time_course(m, time_points=np.array(tps if self.tps_from_zero else tps[1:]), **kw)
             elif self.scan_kind == "proto":
                 res = mod.protocol(m, protocol=protocol, time_points_per_step=1, **kw)
             else:
@@ -382,6 +383,11 @@ def scenarios(tier, seed):
             scs.append(Scan("decay", sk, ("k", "x"), 4, True))
             scs.append(Scan("chain", sk, ("k2", "y"), 4, False))
             scs.append(Scan("decay", sk, ("k",), 4, True, fail_row=2))
+    # the placeholder of a failing row has the grid of the rows that succeed: a request that does not name the start, protocol scans
+    for par in (False, True):
+        scs.append(Scan("decay", "tc", ("k",), 2, par, fail_row=1, tps_from_zero=False))
+        scs.append(Scan("decay", "proto", ("x",), 2, par, fail_row=0))
+        scs.append(Scan("decay", "ptc", ("x",), 2, par, fail_row=1))
     # an earlier scan with y0= must not leak into this one; a repeated row label is refused or answered per row
     for sk in ("ss", "tc"):
         scs.append(Scan("decay", sk, ("k",), 2, False, after_y0_scan=True))
